@@ -35,7 +35,9 @@ func init() {
 		Rules: []string{
 			"C08-R1a every explicit panic site in the four packages ∈ obligation table; table agreement cases(validator) ⊆ cases(switch); validator dominates use; IConfig methods reachable ⊆ non-panicking ones",
 			"C08-R1b every implicit site (array conversion, const slice/index, unchecked assert, non-const divisor) ∈ obligation table with a dominating guard fact",
+			"C08-R1c a slice indexed by the loop variable of a range over another slice needs a fact relating the two lengths",
 			"C08-R2 facts-before(decoders) ∋ size bounds",
+			"C08-R3 lock discipline of the per-message-ID lock table (a plain map): every access inside one critical section of validationMutex",
 		},
 		Trusted: []string{"go/types + go/ssa", "generated SSZ decoders and encoding/json do not panic on malformed input", "registry invariant: a stored share has a non-empty committee (C11-R1 validateOperators)"},
 		Run:     runC08,
